@@ -66,3 +66,10 @@ Theorem C03_maxmin_decreasing : forall y weights lvl x r, y <> [] -> valid_w y w
     (nth i x 0 == maxmin_dec (expectile_Q lvl) (data y weights) i)%Q.
 Proof. exact iso_expectile_maxmin_dec. Qed.
 Print Assumptions C03_maxmin_decreasing.
+
+(* non-vacuity *)
+From MD Require Import proofs.Examples.
+Theorem C03_example :
+  exists x r, isotonic_regression [3; 1; 2; 5; 4]%Q (Some [3#2; 5#2; 1; 5#4; 15#4]%Q) true IFexpectile (3#10) = IOk (x, r) /\ length r = 4%nat.
+Proof. exact ex_iso_expectile. Qed.
+Print Assumptions C03_example.
